@@ -1467,6 +1467,13 @@ pub fn tracker_faults(seed: u64) -> Plan {
         if r.chance(1, 6) {
             peer.accept = Accept::Refuse;
         }
+        // peer ids are arbitrary bytes, not text
+        if r.chance(1, 3) {
+            peer.id = r.bytes(20);
+            if r.chance(1, 2) {
+                peer.id[r.usize_below(20)] = *r.pick(&[0x80u8, 0xFF, 0xC3, 0x00, 0xE2]);
+            }
+        }
         p.peers.push(peer);
     }
     let failures = match r.below(8) {
@@ -1531,6 +1538,15 @@ pub fn tracker_faults(seed: u64) -> Plan {
         d.dial_in.push(r.range(0, total_ms.max(1)));
     }
     d.script.push(step(When::At(5), Act::Send(Msg::Interested)));
+    // sometimes it is a seeder: the download then completes (and the files are written) while the
+    // tracker is still failing, and its second visit must still be answered
+    if r.chance(1, 3) {
+        d.has = vec![true; n];
+        d.unchoke = Unchoke::OnInterested(r.range(1, 200));
+        if d.dial_in.len() < 2 {
+            d.dial_in.push(d.dial_in[0] + r.range(3_000, 20_000));
+        }
+    }
     p.peers.push(d);
     // re-announce: every listed peer leaves, the client has to ask the tracker again
     if flapping || r.chance(1, 4) {
